@@ -343,6 +343,24 @@ impl OW {
         sink.stat("sclone");
         sink.line(&format!("{} {i}", if reset { "ocloner" } else { "oclone" }), &(self.subs.len() - 1).to_string());
     }
+    /// `subs[i].clone_from(&subs[j])`: by `Clone`'s contract the same as `subs[i] = subs[j].clone()` — the old target is
+    /// dropped, the target becomes a copy of the source (observed state included). Reported as those two steps; the
+    /// target lives on under a new id.
+    pub fn sub_clone_from(&mut self, sink: &mut Sink, i: usize, j: usize) {
+        let mut t = self.subs[i].take().unwrap();
+        let src = self.subs[j].as_ref().unwrap();
+        match (&mut t.k, &src.k) {
+            (SubK::S(a), SubK::S(b)) => a.clone_from(b),
+            (SubK::A(a), SubK::A(b)) => a.clone_from(b),
+            _ => unreachable!(),
+        }
+        let fresh = src.fresh;
+        let (flag, waker) = flag_waker();
+        self.subs.push(Some(SubH { k: t.k, flag, waker, fresh, parked: false, tparked: false }));
+        sink.stat("sclonefrom");
+        sink.line(&format!("osdrop {i}"), "ok");
+        sink.line(&format!("oclone {j}"), &(self.subs.len() - 1).to_string());
+    }
     pub fn sub_drop(&mut self, sink: &mut Sink, i: usize) {
         self.subs[i] = None;
         sink.stat("sdrop");
@@ -457,7 +475,7 @@ impl OW {
 }
 
 #[derive(Clone, Debug)]
-enum A { W(WOp, bool), G2(WOp, WOp), HDropU(usize), Sub(bool), Poll(usize), PollT(usize), PollF(usize, u8), Next(usize), Get(usize), Reset(usize), SClone(usize, bool), SDrop(usize),
+enum A { W(WOp, bool), G2(WOp, WOp), HDropU(usize), Sub(bool), Poll(usize), PollT(usize), PollF(usize, u8), Next(usize), Get(usize), Reset(usize), SClone(usize, bool), SCloneFrom(usize, usize), SDrop(usize),
          HClone, HDrop(usize), Down, Up(usize), DropW(usize), CloneW(usize), Into, Counts, HGet }
 
 fn apply(w: &mut OW, sink: &mut Sink, a: &A) -> bool {
@@ -477,6 +495,7 @@ fn apply(w: &mut OW, sink: &mut Sink, a: &A) -> bool {
         A::Get(i) => { if !subs.contains(i) { return false; } w.get(sink, *i) }
         A::Reset(i) => { if !subs.contains(i) { return false; } w.reset(sink, *i) }
         A::SClone(i, r) => { if !subs.contains(i) || subs.len() >= 4 { return false; } w.sub_clone(sink, *i, *r) }
+        A::SCloneFrom(i, j) => { if i == j || !subs.contains(i) || !subs.contains(j) { return false; } w.sub_clone_from(sink, *i, *j) }
         A::SDrop(i) => { if !subs.contains(i) { return false; } w.sub_drop(sink, *i) }
         A::HClone => { let Some(h) = h0 else { return false }; if w.is_unique() || owners.len() >= 3 { return false; } w.owner_clone(sink, h) }
         A::HDrop(k) => { if owners.is_empty() { return false; } let h = owners[*k % owners.len()]; w.owner_drop(sink, h) }
@@ -495,13 +514,13 @@ fn alphabet(full: bool) -> Vec<A> {
     let mut v = vec![
         A::W(WOp::Set(9), false), A::W(WOp::Sne(9), false), A::W(WOp::Sne(17), false), A::W(WOp::Shne(10), false), A::W(WOp::Shne(3), false),
         A::W(WOp::UpdIf(0, true), false), A::W(WOp::UpdIf(0, false), false),
-        A::Sub(false), A::Sub(true), A::Poll(0), A::Poll(1), A::PollT(0), A::PollT(1), A::Next(0), A::Reset(0), A::SClone(0, false), A::SClone(0, true), A::SDrop(0),
+        A::Sub(false), A::Sub(true), A::Poll(0), A::Poll(1), A::PollT(0), A::PollT(1), A::Next(0), A::Reset(0), A::SClone(0, false), A::SClone(0, true), A::SCloneFrom(1, 0), A::SDrop(0),
         A::HClone, A::HDrop(0), A::HDrop(1), A::HDropU(0), A::Down, A::Up(0), A::Into,
         A::G2(WOp::Set(9), WOp::UpdIf(0, false)), A::G2(WOp::Sne(1), WOp::Set(3)),
     ];
     if full {
         v.extend([A::W(WOp::Take, false), A::W(WOp::Upd(1), false), A::W(WOp::Set(1), true), A::W(WOp::UpdIf(0, false), true), A::W(WOp::Sne(9), true),
-                  A::Get(0), A::Poll(2), A::PollF(0, 1), A::PollF(0, 2), A::PollF(1, 1), A::Next(1), A::Reset(1), A::SDrop(1), A::DropW(0), A::CloneW(0), A::Up(1), A::Counts, A::HGet]);
+                  A::Get(0), A::Poll(2), A::PollF(0, 1), A::PollF(0, 2), A::PollF(1, 1), A::Next(1), A::Reset(1), A::SDrop(1), A::SCloneFrom(0, 1), A::DropW(0), A::CloneW(0), A::Up(1), A::Counts, A::HGet]);
     }
     v
 }
@@ -578,7 +597,7 @@ pub fn run(args: &Args, sink: &mut Sink, asyncf: bool) {
                 9..=10 => A::W(WOp::UpdIf(r.below(3), r.chance(1, 2)), r.chance(1, 4)),
                 11 => A::Sub(r.chance(1, 3)),
                 12..=14 => A::Poll(i), 15 => A::PollF(i, 1 + r.below(2) as u8), 16 => A::PollT(i),
-                17 => A::Next(i), 18 => A::Get(i), 19 => A::Reset(i), 20 => A::SClone(i, r.chance(1, 2)), 21 => A::SDrop(i),
+                17 => A::Next(i), 18 => A::Get(i), 19 => A::Reset(i), 20 => if r.chance(1, 3) { A::SCloneFrom(i, r.below(4)) } else { A::SClone(i, r.chance(1, 2)) }, 21 => A::SDrop(i),
                 22 => A::HClone, 23 => if r.chance(1, 4) { A::HDropU(r.below(3)) } else { A::HDrop(r.below(3)) }, 24 => A::Down, 25 => A::Up(r.below(3)), 26 => if r.chance(1, 2) { A::DropW(r.below(3)) } else { A::CloneW(r.below(2)) },
                 27 => A::Into, 28 => A::Counts, _ => A::HGet,
             }
